@@ -257,9 +257,15 @@ Section Proto2.
       | Some a, _, _, _, _ =>
         match a with
         | Doing =>
-          phase_scan w i T tg p_apply (fun p => p <| p_apply := Some Doing |>) true
-                     (fun p => T <| t_state := TFailed |> <| t_failure := p_afail p |> <| t_apply := Some Failed |>)
-                     (T <| t_state := TApplied |> <| t_apply := Some Done |>)
+          (* the apply phase is started on EVERY proposal before any outcome is looked at *)
+          match scan_props w i tg (fun p => is_none (p_apply p)) with
+          | Some (inl _) => ([], RDone)
+          | Some (inr (t, p)) => ([EPutProp (t, i) (p <| p_apply := Some Doing |>)], RDone)
+          | None =>
+            phase_scan w i T tg p_apply (fun p => p <| p_apply := Some Doing |>) true
+                       (fun p => T <| t_state := TFailed |> <| t_failure := p_afail p |> <| t_apply := Some Failed |>)
+                       (T <| t_state := TApplied |> <| t_apply := Some Done |>)
+          end
         | _ => ([], RDone)
         end
       | None, Some ab, _, _, _ =>
